@@ -170,7 +170,7 @@ impl World {
     /// This returns all implicit and explicit imports of the world as a mapping
     /// of names to item kinds. The `NameMap` here is used to enable
     /// semver-compatible matching of lookups
-    fn all_imports(&self, types: &Types) -> NameMap<String, ItemKind> {
+    pub fn all_imports(&self, types: &Types) -> NameMap<String, ItemKind> {
         let mut map = NameMap::default();
         let mut intern = NameMapNoIntern;
         // Add implicit imports from the world
